@@ -21,7 +21,14 @@ type c20Case struct {
 	Query  kit.QuerySpec   `json:"query"`
 }
 
-var c20Symbols = []string{"sa", "sb", "ia", "ib", "fa", "ba", "ta", "boss", "home", "roles", "nums", "places", "peers", "tags"}
+var c20Symbols = []string{"sa", "sb", "ia", "ib", "fa", "ba", "ta", "boss", "home", "roles", "nums", "places", "peers", "tags", "boss.sa", "home.name", "peers.sa"}
+
+// dotted (linked) symbols are symbols in their own right: public exactly when made public under their full name,
+// whatever the publicity of the link symbol they start with
+var c20Dotted = []struct {
+	name, link string
+	set        bool
+}{{"boss.sa", "boss", false}, {"home.name", "home", false}, {"peers.sa", "peers", true}}
 
 // buildC20Store builds the people store with the drawn publicity, using only exported configuration API.
 // buildC20Child layers a child store on the parent; it inherits symbols and their publicity through GrantSymbols.
@@ -75,6 +82,11 @@ func buildC20Store(pub map[string]bool) *boltz.BaseStore[boltz.Entity] {
 	if pub["tags"] {
 		p.MakeSymbolPublic("tags")
 	}
+	for _, d := range c20Dotted {
+		if pub[d.name] {
+			p.MakeSymbolPublic(d.name)
+		}
+	}
 	return p
 }
 
@@ -88,8 +100,32 @@ func genC20(t *rapid.T) c20Case {
 		q.Pred = kit.GenExpr(t, "p", "people", rapid.IntRange(1, 3).Draw(t, "depth"), &kit.GenOpts{NoDotted: true, SelfLinks: true, SubSort: c02SortSyms,
 			Boost: map[string]int{"subcount": 6, "subempty": 6, "setfn": 2, "count": 2, "isempty": 2}})
 	}
-	if rapid.IntRange(0, 2).Draw(t, "hasSort") == 0 {
+	if rapid.IntRange(0, 3).Draw(t, "withDotted") == 0 {
+		// a conjunct over a dotted symbol, placed after one that mentions the link symbol it starts with
+		d := c20Dotted[rapid.IntRange(0, len(c20Dotted)-1).Draw(t, "dotted")]
+		var first, second *kit.Expr
+		if d.set {
+			first = &kit.Expr{Op: "isempty", L: &kit.LHS{Sym: d.link}}
+			second = &kit.Expr{Op: "cmp", Cmp: "=", L: &kit.LHS{Fn: "anyOf", Sym: d.name}, C: []kit.Val{kit.SV("a")}}
+		} else {
+			first = &kit.Expr{Op: "isnull", L: &kit.LHS{Sym: d.link}, Neg: true}
+			second = &kit.Expr{Op: "cmp", Cmp: "=", L: &kit.LHS{Sym: d.name}, C: []kit.Val{kit.SV("a")}}
+		}
+		parts := []*kit.Expr{first, second}
+		if rapid.Bool().Draw(t, "dottedFirst") {
+			parts = []*kit.Expr{second, first}
+		}
+		if q.Pred != nil {
+			parts = append(parts, q.Pred)
+		}
+		q.Pred = &kit.Expr{Op: "and", Kids: parts}
+	}
+	switch rapid.IntRange(0, 5).Draw(t, "hasSort") {
+	case 0, 1:
 		q.Sort = genSort(t, "s", c02SortSyms, 3)
+	case 2:
+		// long sort lists: the scanners use the first five fields only, the validator sees all of them
+		q.Sort = genSort(t, "s", c02SortSyms, 8)
 	}
 	q.Page = genPaging(t, "pg", 5)
 	c.Query = q
@@ -190,8 +226,18 @@ func runC20(c c20Case) kit.Result {
 	sort.Strings(nonPublic)
 	verr := boltz.ValidateSymbolsArePublic(q, store)
 	// a child store inherits the parent's symbols with their publicity: it must give the same verdict
+	// (queries with dotted symbols are left out: GrantSymbols hands over the store's own symbols, and whether a
+	// dotted name made public on the parent is public on the child as well is not stated)
 	child := buildC20Child(store)
-	if cq, cerr := ast.Parse(child, text); cerr != nil {
+	usesDotted := false
+	for _, d := range c20Dotted {
+		if _, ok := refs[d.name]; ok {
+			usesDotted = true
+		}
+	}
+	if usesDotted {
+		res.Classes = append(res.Classes, "dotted-symbol")
+	} else if cq, cerr := ast.Parse(child, text); cerr != nil {
 		res.Err = fmt.Errorf("query %s accepted by the parent store's parser but rejected through the child store: %v", text, cerr)
 		return res
 	} else if cverr := boltz.ValidateSymbolsArePublic(cq, child); (cverr == nil) != (verr == nil) {
